@@ -51,10 +51,13 @@ func (cx *Ctx) coinParamsValidated(r *Report) {
 					recv := v.Params[0]
 					subj := func(x ssa.Value) bool { return isFieldOf(x, recv, idx) }
 					ok, where := validOnAccept(v, subj, 0)
-					if !ok && hasDynamicErrorCall(v) {
-						// a table of check closures run in a loop: which checks ran before an
-						// accepting return is not decided here - no report
-						continue
+					if !ok && (hasDynamicErrorCall(v) || len(v.AnonFuncs) > 0) {
+						// a table of check closures (run in a loop here or by a helper): which
+						// checks ran before an accepting return is not decided; what is decided
+						// is that one of the closures validates a value of the field's type
+						if closureTableValidates(v, st.Field(i).Type()) {
+							continue
+						}
 					}
 					key := moduleOf(funcPkgPath(f)) + "|" + st.Field(i).Name()
 					pos := cx.P.Pos(v.Pos())
@@ -202,6 +205,16 @@ func validOnAccept(fn *ssa.Function, subj func(ssa.Value) bool, depth int) (bool
 				if ta, ok := x.(*ssa.TypeAssert); ok && ta.X == p && !ta.CommaOk {
 					return true
 				}
+				// v, err := paramAs[sdk.Coin](i): a typed view of the raw value handed out by a helper
+				if ex, ok := x.(*ssa.Extract); ok && ex.Index == 0 && isSdkCoinType(ex.Type()) {
+					if cc, ok := ex.Tuple.(*ssa.Call); ok {
+						for _, a := range cc.Common().Args {
+							if a == p {
+								return true
+							}
+						}
+					}
+				}
 				return false
 			}
 			if ok, _ := validOnAccept(callee, inner, depth+1); ok {
@@ -307,6 +320,75 @@ func hasDynamicErrorCall(fn *ssa.Function) bool {
 			sig, ok := c.Call.Value.Type().Underlying().(*types.Signature)
 			if ok && sig.Results().Len() > 0 && sig.Results().At(sig.Results().Len()-1).Type().String() == "error" {
 				return true
+			}
+		}
+	}
+	return false
+}
+
+// closureTableValidates: one of fn's closures hands a value of type ft to a validator
+// that establishes its validity, or calls IsValid / Validate on such a value.
+func closureTableValidates(fn *ssa.Function, ft types.Type) bool {
+	var fns []*ssa.Function
+	var add func(f *ssa.Function)
+	add = func(f *ssa.Function) {
+		for _, a := range f.AnonFuncs {
+			fns = append(fns, a)
+			add(a)
+		}
+	}
+	add(fn)
+	for _, f := range fns {
+		for _, b := range f.Blocks {
+			for _, ins := range b.Instrs {
+				c, ok := ins.(*ssa.Call)
+				if !ok {
+					continue
+				}
+				callee := c.Common().StaticCallee()
+				if callee == nil {
+					continue
+				}
+				for i, a := range c.Common().Args {
+					x := a
+					if mi, ok := x.(*ssa.MakeInterface); ok {
+						x = mi.X
+					}
+					if !types.Identical(x.Type(), ft) {
+						continue
+					}
+					if callee.Signature.Recv() != nil && i == 0 && (callee.Name() == "Validate" || callee.Name() == "IsValid") {
+						return true
+					}
+					if !strings.HasPrefix(funcPkgPath(callee), modPrefix) || i >= len(callee.Params) {
+						continue
+					}
+					p := callee.Params[i]
+					inner := func(v ssa.Value) bool {
+						if v == p {
+							return true
+						}
+						if ex, ok := v.(*ssa.Extract); ok && ex.Index == 0 {
+							if ta, ok := ex.Tuple.(*ssa.TypeAssert); ok && ta.X == p {
+								return true
+							}
+							if cc, ok := ex.Tuple.(*ssa.Call); ok && isSdkCoinType(ex.Type()) {
+								for _, a2 := range cc.Common().Args {
+									if a2 == p {
+										return true
+									}
+								}
+							}
+						}
+						if ta, ok := v.(*ssa.TypeAssert); ok && ta.X == p && !ta.CommaOk {
+							return true
+						}
+						return false
+					}
+					if ok, _ := validOnAccept(callee, inner, 1); ok {
+						return true
+					}
+				}
 			}
 		}
 	}
